@@ -543,7 +543,11 @@ theorem cast_eq_spec_partial (ver : Lex.Ver) (a : Lex.Atom) (t : Lex.Target) (h 
       · simp only [↓reduceIte, toSRes, toSVal, specDblClass]
         rw [specDblClass_eq]
     | bool x => rfl
-    | int v => rfl
+    | int v =>
+      simp only [Lex.cast, toSType, XSD.castSpec, toSAtom, toSRes, toSVal, Lex.intDblClass, XSD.integerDoubleClass]
+      split
+      · rfl
+      · split <;> rfl
     | dec d => rfl
     | dbl x r => cases x <;> rfl
   | float =>
@@ -563,7 +567,11 @@ theorem cast_eq_spec_partial (ver : Lex.Ver) (a : Lex.Atom) (t : Lex.Target) (h 
       · simp only [↓reduceIte, toSRes, toSVal, specDblClass]
         rw [specDblClass_eq]
     | bool x => rfl
-    | int v => rfl
+    | int v =>
+      simp only [Lex.cast, toSType, XSD.castSpec, toSAtom, toSRes, toSVal, Lex.intDblClass, XSD.integerDoubleClass]
+      split
+      · rfl
+      · split <;> rfl
     | dec d => rfl
     | dbl x r => cases x <;> rfl
 
